@@ -124,6 +124,19 @@ def fmtIntList (xs : List NInt) : Str :=
     | x :: rest => reprNInt x ++ [44, 32] ++ go rest
   [91] ++ go xs ++ [93]
 
+/-- core.rs `MyDisplay for Obj`, `Seq::Dict` arm on a one-entry dict with a (printable ASCII, no
+quote / backslash) string key and an integer value: `{"k": v}`, key and value in `repr` form -/
+def fmtDict1 (key : Str) (v : NInt) : Str :=
+  [123, 34] ++ key ++ [34, 58, 32] ++ reprNInt v ++ [125]
+
+/-- core.rs `parse_format_string` + the evaluation of `Expr::FormatString`: every `{expr #flags}`
+gets its OWN fresh `MyFmtFlags::new()` (flags never carry over from one interpolation to the
+next); the literal characters between interpolations are copied.  A slot here is (flags, value,
+literal text that follows). -/
+def fmtSlots : List (Flags × NInt × Str) → Str
+  | [] => []
+  | (fl, n, lit) :: rest => fmtNumWith fl n ++ lit ++ fmtSlots rest
+
 /-- `str(n)`, `$n`, `print(n)`, `F"{n}"`: `format!("{}", n)` -/
 def showNInt (n : NInt) : Str := fmtNInt .decimal n
 
